@@ -89,9 +89,15 @@ func trunc(s string) string {
 	return s
 }
 
+const largeBase = 1000000000
+
 func caseGen(r *mon.Rec, idx int) {
 	rng := r.Rand("gen", idx)
 	p, e := gen4.Packet(rng, 12)
+	if idx >= largeBase { // large totals: option areas of 60 kB to 1 MB
+		p, e = gen4.Packet(rng, 2)
+		gen4.LargeTotal(rng, p, e)
+	}
 	r.Current(replay{"gen", idx, ""})
 	r.Eval(1)
 	rp := replay{"gen", idx, ""}
@@ -350,6 +356,13 @@ func TestCheck(t *testing.T) {
 			caseGen(r, i)
 		}
 	}
+	nl := r.Pick(48, 2000)
+	for i := 0; i < nl; i++ {
+		if r.Mine(i) {
+			caseGen(r, largeBase+i)
+		}
+	}
+	r.Set("large_total_cases", nl)
 	m := r.Pick(3000, 300000)
 	for i := 0; i < m; i++ {
 		if r.Mine(i) {
